@@ -37,8 +37,12 @@ Ltac vstep_check H := eapply vsafe_bind; [apply vsafe_check | let u := fresh "u"
 
 (* ------------------------------------------------------------------------------------------ parameters *)
 Definition wfField (F : FieldP) : Prop :=
-  let n := len (fp_modbytes F) in let eb := Z.of_nat (fp_bytes F) in
-  0 < eb <= 2 ^ 16 /\ n / 2 < eb /\ n - n / 2 < eb /\ 256 ^ (eb - 1) <= fp_mod F /\ 31 <= fp_two_adicity F.
+  let m := fp_modbytes F in let eb := Z.of_nat (fp_bytes F) in let half := Z.to_nat (len m / 2) in
+  2 <= eb <= 2 ^ 16 /\
+  (* the two halves of the modulus bytes are shorter than an element and smaller than the modulus *)
+  from_bytes_with_padding_ok F (firstn half m) = true /\ from_bytes_with_padding_ok F (skipn half m) = true /\
+  (* ELEMENT_BYTES - 1 arbitrary bytes are always a canonical element *)
+  256 ^ (eb - 1) <= fp_mod F /\ 31 <= fp_two_adicity F.
 
 Definition wfAir (A : AirP) : Prop := wfField (ap_field A) /\ 0 < ap_ncols A <= 255 /\ ap_lagrange A = false.
 
@@ -50,6 +54,53 @@ Definition Known (A : AirP) (p : Proof) : Prop :=
 
 Example wfField_supported : wfField F64P /\ wfField F128P /\ wfField F62P.
 Proof. unfold wfField. vm_compute. repeat split; intros; discriminate. Qed.
+
+(* ------------------------------------------------------------------------------------ Context::to_elements *)
+Lemma chunks_loop_spec fuel n bs : is_bytes bs ->
+  Forall (fun ch => Z.of_nat (length ch) <= Z.of_nat n /\ is_bytes ch) (chunks_loop fuel n bs).
+Proof.
+  revert bs. induction fuel as [|f IH]; intros bs Hbs; cbn [chunks_loop]; [constructor|].
+  destruct bs as [|b r] eqn:E; [constructor|]. rewrite <- E in *. clear E b r.
+  assert (H : is_bytes (firstn n bs) /\ is_bytes (skipn n bs)).
+  { unfold is_bytes in *. apply Forall_app. now rewrite firstn_skipn. }
+  destruct H as [H1 H2]. constructor; [|apply IH; exact H2].
+  split; [|exact H1]. pose proof (firstn_le_length n bs). lia.
+Qed.
+
+Lemma from_bytes_with_padding_small F ch :
+  is_bytes ch -> Z.of_nat (length ch) <= Z.of_nat (fp_bytes F) - 1 -> 256 ^ (Z.of_nat (fp_bytes F) - 1) <= fp_mod F ->
+  from_bytes_with_padding_ok F ch = true.
+Proof.
+  intros Hb Hl HM. unfold from_bytes_with_padding_ok. apply andb_true_intro; split.
+  - apply Z.ltb_lt. unfold len. lia.
+  - apply Z.ltb_lt. pose proof (of_le_bytes_range ch Hb) as Hr.
+    assert (256 ^ Z.of_nat (length ch) <= 256 ^ (Z.of_nat (fp_bytes F) - 1)) by (apply Z.pow_le_mono_r; lia). lia.
+Qed.
+
+(* for the code as it is (chunks of ELEMENT_BYTES - 1 bytes): building the coin seed from ANY parsed context whose
+   modulus bytes are the field's never panics *)
+Theorem to_elements_total : forall F c, wfField F -> is_bytes (ti_meta (ctx_trace_info c)) ->
+  ctx_modulus c = fp_modbytes F -> to_elements_ok (META_CHUNK F) F c = true.
+Proof.
+  intros F c (Heb & Hm1 & Hm2 & HM & _) Hmeta Hmod. cbv zeta in *. unfold to_elements_ok, META_CHUNK. rewrite Hmod, Hm1, Hm2.
+  rewrite !andb_true_r. set (meta := ti_meta (ctx_trace_info c)) in *.
+  assert (HX : (0 <? Z.of_nat (fp_bytes F) - 1) &&
+               forallb (from_bytes_with_padding_ok F) (chunks (Z.to_nat (Z.of_nat (fp_bytes F) - 1)) meta) = true).
+  { apply andb_true_intro; split; [apply Z.ltb_lt; lia|].
+    apply forallb_forall. intros ch Hin. unfold chunks in Hin.
+    pose proof (chunks_loop_spec (length meta) (Z.to_nat (Z.of_nat (fp_bytes F) - 1)) _ Hmeta) as Hs.
+    rewrite Forall_forall in Hs. destruct (Hs ch Hin) as [Hl Hb].
+    apply from_bytes_with_padding_small; auto. lia. }
+  destruct meta; [reflexivity | exact HX].
+Qed.
+
+(* with chunks of ELEMENT_BYTES bytes (and the length assertion relaxed to <=, or not) metadata of one full-width block
+   that is not a canonical element is a panic: `ELEMENT_BYTES - 1` is what makes the conversion total *)
+Theorem to_elements_full_chunk_refuted :
+  to_elements_ok 8 F64P (mkCtx (mkTI 1 0 0 8 [1; 0; 0; 0; 255; 255; 255; 255]) (fp_modbytes F64P) (mkPO 1 2 0 FE_None 2 0)) = false /\
+  of_le_bytes [1; 0; 0; 0; 255; 255; 255; 255] = M64 /\
+  to_elements_ok (META_CHUNK F64P) F64P (mkCtx (mkTI 1 0 0 8 [1; 0; 0; 0; 255; 255; 255; 255]) (fp_modbytes F64P) (mkPO 1 2 0 FE_None 2 0)) = true.
+Proof. vm_compute. repeat split; reflexivity. Qed.
 
 (* ------------------------------------------------------------------------------------------ arithmetic *)
 Lemma bytes_eqb_eq a b : bytes_eqb a b = true -> a = b.
@@ -135,7 +186,7 @@ Definition chan_post (A : AirP) (p : Proof) (ch : Chan) : Prop :=
 
 Lemma channel_new_safe A p : proof_inv p -> wfAir A -> vsafe (chan_post A p) (channel_new A p).
 Proof.
-  intros (Hc & Hnuq & Hcom & Htq & Hlen & Hcq & Hood & Hfri) (HF & Hnc & Hlag).
+  intros ((Hc & Hnuq & Hcom & Htq & Hlen & Hcq & Hood & Hfri) & _) (HF & Hnc & Hlag).
   pose proof (context_ok_facts _ Hc) as Hf. cbv zeta in Hf.
   destruct Hf as (T1 & T2 & T3 & T4 & T5 & T6 & T7 & O1 & O2 & O3 & O4 & O5).
   destruct (in_blowups _ O2) as [Pbf Hbf]. destruct (in_foldings _ O4) as [Pff Hff].
@@ -231,7 +282,7 @@ Lemma perform_verification_safe A p ch orc k kf :
   proof_inv p -> wfAir A -> chan_post A p ch ->
   vsafe (fun _ => True) (perform_verification A p ch orc k kf).
 Proof.
-  intros (Hc & Hnuq & _) (HF & Hnc & Hlag) Hpost.
+  intros ((Hc & Hnuq & _) & _) (HF & Hnc & Hlag) Hpost.
   pose proof (context_ok_facts _ Hc) as Hf. cbv zeta in Hf.
   destruct Hf as (T1 & T2 & T3 & T4 & T5 & T6 & T7 & O1 & O2 & O3 & O4 & O5).
   destruct (in_blowups _ O2) as [Pbf Hbf]. destruct (in_foldings _ O4) as [Pff Hff].
@@ -291,13 +342,12 @@ Qed.
 Theorem verify_safe A pol p orc k kf :
   proof_inv p -> wfAir A -> ~ Known A p -> vsafe (fun _ => True) (verify A pol p orc k kf).
 Proof.
-  intros Hinv HA Hk. pose proof Hinv as (Hc & _). pose proof HA as (HF & _).
+  intros Hinv HA Hk. pose proof Hinv as ((Hc & _) & Hmeta). pose proof HA as (HF & _).
   unfold verify. cbv zeta.
   vstep_check Hmod. apply bytes_eqb_eq in Hmod.
   vstep_check Hpol.
   vstep_assert.
-  { unfold seed_ok. rewrite <- Hmod. destruct HF as (F1 & F2 & F3 & F4 & _). cbv zeta in *.
-    repeat (apply andb_true_intro; split); [apply Z.ltb_lt | apply Z.ltb_lt | apply Z.leb_le]; lia. }
+  { apply to_elements_total; auto. }
   eapply vsafe_bind.
   { unfold Known in Hk. cbv zeta in Hk. apply air_new_safe; auto; try lia;
       match goal with |- ?a = ?b => destruct (Z.eq_dec a b); [assumption | exfalso; apply Hk; tauto] end. }
@@ -345,14 +395,10 @@ Proof.
   2:{ unfold vcheck in E1. destruct (bytes_eqb _ _); discriminate. }
   destruct (vcheck _ E_UnacceptableProofOptions) eqn:E2; cbn [vbind]; try discriminate.
   2:{ unfold vcheck in E2. destruct (policy_ok _ _); discriminate. }
-  destruct (vassert (seed_ok _ _) _) eqn:E3; cbn [vbind]; try discriminate.
+  destruct (vassert (to_elements_ok _ _ _) _) eqn:E3; cbn [vbind]; try discriminate.
   2:{ intros _. exfalso. unfold vcheck in E1. destruct (bytes_eqb _ _) eqn:Eb; [|discriminate]. apply bytes_eqb_eq in Eb.
-      destruct HA as ((F1 & F2 & F3 & F4 & _) & _). cbv zeta in *. unfold vassert, seed_ok in E3. rewrite <- Eb in E3.
-      assert (X : ((len (fp_modbytes (ap_field A)) / 2 <? Z.of_nat (fp_bytes (ap_field A))) &&
-                   (len (fp_modbytes (ap_field A)) - len (fp_modbytes (ap_field A)) / 2 <? Z.of_nat (fp_bytes (ap_field A))) &&
-                   (256 ^ (Z.of_nat (fp_bytes (ap_field A)) - 1) <=? fp_mod (ap_field A))) = true).
-      { repeat (apply andb_true_intro; split); [apply Z.ltb_lt | apply Z.ltb_lt | apply Z.leb_le]; lia. }
-      rewrite X in E3. discriminate. }
+      destruct Hinv as [_ Hmeta]. destruct HA as (HF & _).
+      unfold vassert in E3. rewrite (to_elements_total _ _ HF Hmeta (eq_sym Eb)) in E3. discriminate. }
   unfold air_new.
   destruct (vassert _ W_air_new_layout) eqn:E4; cbn [vbind].
   2:{ unfold vassert in E4. destruct (_ && _); discriminate. }
